@@ -398,6 +398,18 @@ def process_fn(src: str, src_file: str, it: rustscan.Item, dirs: List[Directive]
             text = '\n'.join(d.payload)
             edits.append(Edit(st[ce].start, st[ce].start, '\n' + text + '\n', 'loopend%d:%s:%d' % (n, info.fn, d.line)))
             info.n_asserts += len(re.findall(r'\bassert\s*\(', text))
+    for d in dirs:
+        if d.kind in ('afterloop', 'afterloop?'):
+            n = int(d.arg.split()[0])
+            if n > len(loops):
+                if d.kind == 'afterloop?':
+                    continue
+                raise Undecided('lost anchor: loop %d of %s (has %d loops)' % (n, info.fn, len(loops)))
+            _, bi = loops[n - 1]
+            ce = match_close(st, bi)
+            text = '\n'.join(d.payload)
+            edits.append(Edit(st[ce].end, st[ce].end, '\n' + text + '\n', 'afterloop%d:%s:%d' % (n, info.fn, d.line)))
+            info.n_asserts += len(re.findall(r'\bassert\s*\(', text))
     # --- await invariants
     for d in dirs:
         if d.kind == 'await':
@@ -658,6 +670,7 @@ class Unit:
             return '\n'.join(out)
         text = re.sub(r'^//@@ consts (\S+)[ \t]*$', consts, text, flags=re.M)
         self.template_text = text
+        self.defines = set(re.findall(r'^//@@ define (\w+)[ \t]*$', text, re.M))
         m = re.search(r'^//@@ state-fields:(.*)$', text, re.M)
         if m:
             self.state_fields = m.group(1).split()
@@ -667,6 +680,14 @@ class Unit:
                 self.segments.append((part[1], ('tmpl', self.template_path, part[2])))
                 continue
             _, file, selector, dirs, tline = part
+            skip = False
+            for d in dirs:
+                if d.kind == 'only-if' and d.arg not in self.defines:
+                    skip = True
+                if d.kind == 'only-if-not' and d.arg in self.defines:
+                    skip = True
+            if skip:
+                continue
             path = os.path.join(self.repo, file)
             if path not in cache:
                 if not os.path.exists(path):
@@ -700,7 +721,18 @@ class Unit:
                 owner = (m.group(1) if m else parent.name) + '::'
             disp = next((d.arg for d in dirs if d.kind == 'name'), owner + it.name)
             info = FnInfo(self.name, selector, disp, file, line_of(src, it.kw_start), '', drops)
-            process_fn(src, file, it, dirs, parent, edits, info, self.state_fields)
+            stub = any(d.kind == 'stub-if' and d.arg in self.defines for d in dirs)
+            if stub:
+                # the callee's contract is ASSUMED in this unit (it is verified, with the same contract text, in
+                # the unit that extracts the body): keep signature + contract, drop the body
+                dirs = [d for d in dirs if d.kind in ('ret', 'spec', 'inherent', 'receiver-mut', 'self-type', 'name', 'drop-derive')]
+                dirs.append(Directive('attr', '', ['    #[verifier::external_body]'], 0))
+                process_fn(src, file, it, dirs, parent, edits, info, self.state_fields)
+                edits.append(Edit(it.body_open, it.end, '{ unimplemented!() }', 'real', 'STUB'))
+                drops.append('STUB body dropped: contract assumed here, verified in another unit')
+                info.trusted = True
+            else:
+                process_fn(src, file, it, dirs, parent, edits, info, self.state_fields)
             infos.append(info)
         elif it.kind == 'impl':
             # whole impl kept as is (trait impls Verus understands: TryFrom / From / Default / Clone)
